@@ -98,8 +98,20 @@ type AutoSpec struct {
 	Line    int
 }
 
+// Forbid is a package-level frame obligation: certain callees must not be called at all.
+type Forbid struct {
+	PkgPath string
+	Props   []string
+	Pkgs    []string // forbidden callee packages
+	Funcs   []string // forbidden callee functions (ssa keys)
+	Except  []string // functions of this package that are exempt
+	File    string
+	Line    int
+}
+
 // ContractSet holds all contracts found under a repository root.
 type ContractSet struct {
+	Forbids []*Forbid
 	Autos  []*AutoSpec
 	ByKey  map[string]*Contract
 	Specs  map[string]map[string]*Contract // pkgpath → name → spec function
@@ -107,7 +119,7 @@ type ContractSet struct {
 	Files  []string
 }
 
-var clauseKw = map[string]bool{"allocbound": true, "callback": true, "auto": true, "interface": true, "func": true, "pure": true, "opaque": true, "ghost": true, "call": true, "assume": true, "lemma": true, "arith": true, "requires": true,
+var clauseKw = map[string]bool{"forbid": true, "allocbound": true, "callback": true, "auto": true, "interface": true, "func": true, "pure": true, "opaque": true, "ghost": true, "call": true, "assume": true, "lemma": true, "arith": true, "requires": true,
 	"ensures": true, "loop": true, "closure": true, "modifies": true, "claims": true, "cover": true, "inline": true,
 	"replay": true, "props": true, "split": true, "hint": true, "end": true}
 
@@ -267,6 +279,30 @@ func (cs *ContractSet) loadFile(path, pkg string) error {
 				return errf("%v", err)
 			}
 			cs.Lemmas = append(cs.Lemmas, &Lemma{Name: name, PkgPath: pkg, E: e, Text: body, Props: props, File: path, Line: l.line})
+			cur, target = nil, nil
+		case "forbid":
+			// `forbid props Cxx pkg <path>` / `forbid props Cxx func <key> <key> ...`:
+			// no function of this package may call into the package / the listed functions
+			fb := &Forbid{PkgPath: pkg, File: path, Line: l.line}
+			mode := ""
+			for _, f := range strings.Fields(rest) {
+				switch f {
+				case "props", "pkg", "func", "except":
+					mode = f
+				default:
+					switch mode {
+					case "props":
+						fb.Props = append(fb.Props, strings.Trim(f, ","))
+					case "pkg":
+						fb.Pkgs = append(fb.Pkgs, strings.Trim(f, ","))
+					case "func":
+						fb.Funcs = append(fb.Funcs, strings.Trim(f, ","))
+					case "except":
+						fb.Except = append(fb.Except, strings.Trim(f, ","))
+					}
+				}
+			}
+			cs.Forbids = append(cs.Forbids, fb)
 			cur, target = nil, nil
 		case "auto":
 			// `auto inverse props C21 [claims ...]`: synthesize a thin contract for every function
